@@ -325,6 +325,58 @@ impl Iterator for ClosestBucketsIter {
     }
 }
 
+// Verification hooks (runtime-monitoring harness only).
+#[cfg(feature = "verif")]
+impl RoutingTable {
+    /// Dump `(bucket index, entry)` for every stored entry (placeholders included).
+    pub fn verif_dump(&self) -> Vec<(usize, KademliaPeer)> {
+        self.buckets
+            .iter()
+            .enumerate()
+            .flat_map(|(index, bucket)| bucket.verif_nodes().iter().cloned().map(move |n| (index, n)))
+            .collect()
+    }
+
+    /// Insert `peer` under the crafted `key`. Bucket choice, capacity and eviction are decided by
+    /// the real [`RoutingTable::entry()`]; only the final field assignment is done here because
+    /// `KBucketEntry::insert()` re-derives the key from the peer ID.
+    ///
+    /// Returns `"occupied" | "inserted" | "local" | "noslot"`.
+    pub fn verif_insert_with_key(&mut self, key: Key<PeerId>, peer: KademliaPeer) -> &'static str {
+        match self.entry(key.clone()) {
+            KBucketEntry::Occupied(entry) => {
+                entry.address_store = peer.address_store;
+                entry.connection = peer.connection;
+                "occupied"
+            }
+            KBucketEntry::Vacant(old) => {
+                old.peer = peer.peer;
+                old.key = key;
+                old.address_store = peer.address_store;
+                old.connection = peer.connection;
+                "inserted"
+            }
+            KBucketEntry::LocalNode => "local",
+            KBucketEntry::NoSlot => "noslot",
+        }
+    }
+
+    /// Set the connection type of the entry stored under `key`, if any.
+    pub fn verif_set_connection(&mut self, key: Key<PeerId>, connection: ConnectionType) -> bool {
+        // look up without creating a placeholder
+        let Some(index) = BucketIndex::new(&self.local_key.distance(&key)) else {
+            return false;
+        };
+        match self.buckets[index.get()].verif_find_mut(&key) {
+            Some(entry) => {
+                entry.connection = connection;
+                true
+            }
+            None => false,
+        }
+    }
+}
+
 #[cfg(test)]
 mod tests {
     use super::*;
